@@ -91,16 +91,33 @@ class Ctx:
             # evaluated under it (halves the number of queries)
             s = z3.Solver()
             s.set('timeout', int(self.feas_timeout * 1000))
-            s.add(*smt.prune_aux(self._slice(self.assumptions(), extra) + [extra]))
+            sl = smt.prune_aux(self._slice(self.assumptions(), extra))
+            s.add(*(sl + [extra]))
             smt.STATS.queries += 1
             r = s.check()
             smt.STATS.by_result[str(r) if str(r) in smt.STATS.by_result else 'unknown'] += 1
-            self._last_model = s.model() if r == z3.sat else None
+            self._last_model = None
+            if r == z3.sat:
+                m = s.model()
+                self._last_model = {}
+                for name, c in smt._collect_consts(sl + [extra]).items():
+                    self._last_model[name] = smt._z3_value(m.eval(c, model_completion=True))
             return r != z3.unsat
         st, model, _ = smt.solve(self._slice(self.assumptions(), extra) + [extra], timeout_s=self.feas_timeout,
                                  cvc5_timeout_s=0, want_model=True)
         self._last_model = model if st == 'sat' else None
         return st != 'unsat'
+
+    def _merge(self, m):
+        """a model of a sliced query extends to the whole path by keeping the previous witness on all other variables"""
+        if m is None or m is self.witness:
+            return m
+        if not isinstance(m, dict):
+            return None
+        w = self.witness if isinstance(getattr(self, 'witness', None), dict) else {}
+        out = dict(w)
+        out.update(m)
+        return out
 
     def _eval_witness(self, cond):
         m = getattr(self, 'witness', None)
@@ -112,6 +129,9 @@ class Ctx:
             sub = []
             for name, var in smt._collect_consts([cond]).items():
                 val = m.get(name)
+                if isinstance(val, bool) and z3.is_bool(var):
+                    sub.append((var, z3.BoolVal(val)))
+                    continue
                 if not isinstance(val, Fraction) or val.denominator.bit_length() > 200:
                     return None
                 sub.append((var, z3.RealVal(str(val)) if var.is_real() else z3.IntVal(int(val))))
@@ -174,6 +194,7 @@ class Ctx:
                     ft = self.feasible(cond)
                     mt = getattr(self, '_last_model', None)
                 implied = False
+                mt, mf = self._merge(mt), self._merge(mf)
                 if ft and ff:
                     self.work.append((self.trace + [False], mf, list(self.implied) + [False]))
                     d = True
